@@ -43,6 +43,8 @@ def refine(rg, conds, condmap, track):
         if cb is None:
             return False
         pending.append((cb, taken))
+    if not pending:
+        return True
     for _ in range(5):
         rest = []
         applied = 0
